@@ -707,6 +707,8 @@ class URL:
                               fragment=dest.fragment,
                               username=dest.username or self.username,
                               password=dest.password or self.password)
+        # from_parts() cannot tell an IPv6 literal, keep the brackets
+        ret.family = dest.family if dest.host else self.family
         ret.normalize()
         return ret
 
